@@ -494,7 +494,7 @@ def _where_at_depth(toks, depth, start=0):
             j = i + 1
             while j < len(toks):
                 u = toks[j]
-                if u.depth < depth or (u.depth == depth and u.text == ")"):
+                if u.depth < depth:
                     break
                 if u.depth == depth and u.kind == "id" and u.up in enders:
                     break
@@ -516,7 +516,7 @@ def all_where_clauses(sql: str) -> list[str]:
             j = i + 1
             while j < len(toks):
                 u = toks[j]
-                if u.depth < depth or (u.depth == depth and u.text == ")"):
+                if u.depth < depth:
                     break
                 if u.depth == depth and u.kind == "id" and u.up in enders:
                     break
